@@ -1,0 +1,13 @@
+//go:build verif
+
+// Contracts for package k8s, read by the gocv verification-condition
+// generator in /verif. This file contains comments only: it adds no code
+// to any build. Syntax: see /verif/DESIGN.md section 2.2.
+
+package k8s
+
+// Trusted: the body (regular expressions adapted from k8s.io/apimachinery) is not verified.
+//@ func ValidateAnnotations(annotations map[string]string, path string) (err error)
+//@   trusted
+//@   pure
+//@   ensures[C05] iff(err == nil, K8sAnnOK(annotations))
